@@ -5,6 +5,7 @@ import (
 	"os"
 	"path/filepath"
 	"regexp"
+	"sort"
 	"strings"
 	"testing"
 	"time"
@@ -380,6 +381,12 @@ func judge(dir string, fc *faultCase) (map[string]string, string) {
 				return sig, fmt.Sprintf("goderive exited 0 on a package with %s and wrote a derived.gen.go that does not parse: %v", fc.desc, perr)
 			}
 		}
+		// exit 0 claims success: a derive call that goderive itself reported as not (yet) generatable
+		// must then have been generated in a later pass
+		if missing := ungenerated(dir, res.Stderr); len(missing) > 0 {
+			sig["symptom"] = "exit0-call-not-generated"
+			return sig, fmt.Sprintf("goderive exited 0 on a package with %s although it could not generate %v (its own log: %s)", fc.desc, missing, pkit.Trunc(res.Stderr, 400))
+		}
 		return nil, ""
 	}
 	// exit 0: the result has to be a package that parses and type-checks
@@ -401,6 +408,28 @@ func judge(dir string, fc *faultCase) (map[string]string, string) {
 		return sig, fmt.Sprintf("goderive exited 0 on %s but the package does not type-check:\n%s", fc.desc, pkit.Trunc(strings.Join(cr.Errors, "\n"), 1200))
 	}
 	return nil, ""
+}
+
+var reNotYet = regexp.MustCompile(`could not yet generate: (\w+)\(`)
+
+// ungenerated lists the functions named in goderive's "could not yet generate" log lines that
+// derived.gen.go does not define.
+func ungenerated(dir, log string) []string {
+	src, _ := os.ReadFile(filepath.Join(dir, "p", gorun.DerivedFile))
+	seen := map[string]bool{}
+	var out []string
+	for _, m := range reNotYet.FindAllStringSubmatch(log, -1) {
+		name := m[1]
+		if seen[name] {
+			continue
+		}
+		seen[name] = true
+		if !regexp.MustCompile(`(?m)^func ` + regexp.QuoteMeta(name) + `\(`).Match(src) {
+			out = append(out, name)
+		}
+	}
+	sort.Strings(out)
+	return out
 }
 
 // sweep enumerates the fault matrix once: every typed plugin x unsupported kind x position, every
